@@ -132,57 +132,90 @@ section conv
 variable {σ : Type} (resolve : σ → String) (intern : String → σ)
 
 mutual
-theorem toFfi_error_iff (v : Value σ) : (∃ e, toFfi resolve v = .error e) ↔ v.HasOpaque := by
+theorem toFfi_error_iff (v : Value σ) :
+    (∃ e, toFfi resolve v = .error e) ↔ (v.HasOpaque ∨ v.HasErrorV) := by
   cases v with
   | array vs =>
     have := toFfiList_error_iff vs
-    simp only [toFfi, Value.HasOpaque, ← this]
+    simp only [toFfi, Value.HasOpaque, Value.HasErrorV, ← this]
     cases toFfiList resolve vs <;> simp
   | tuple vs =>
     have := toFfiList_error_iff vs
-    simp only [toFfi, Value.HasOpaque, ← this]
+    simp only [toFfi, Value.HasOpaque, Value.HasErrorV, ← this]
     cases toFfiList resolve vs <;> simp
   | record fs =>
     have := toFfiFields_error_iff fs
-    simp only [toFfi, Value.HasOpaque, ← this]
+    simp only [toFfi, Value.HasOpaque, Value.HasErrorV, ← this]
     cases toFfiFields resolve fs <;> simp
   | taggedUnion t v =>
     have := toFfi_error_iff v
-    simp only [toFfi, Value.HasOpaque, ← this]
+    simp only [toFfi, Value.HasOpaque, Value.HasErrorV, ← this]
     cases toFfi resolve v <;> simp
-  | errorV _ => simp [toFfi, Value.HasOpaque]
-  | unit => simp [toFfi, Value.HasOpaque]
-  | number _ => simp [toFfi, Value.HasOpaque]
-  | string _ => simp [toFfi, Value.HasOpaque]
-  | code _ => simp [toFfi, Value.HasOpaque]
+  | errorV _ => simp [toFfi, Value.HasOpaque, Value.HasErrorV]
+  | unit => simp [toFfi, Value.HasOpaque, Value.HasErrorV]
+  | number _ => simp [toFfi, Value.HasOpaque, Value.HasErrorV]
+  | string _ => simp [toFfi, Value.HasOpaque, Value.HasErrorV]
+  | code _ => simp [toFfi, Value.HasOpaque, Value.HasErrorV]
   | closure _ _ => simp [toFfi, Value.HasOpaque]
   | fixpoint _ _ => simp [toFfi, Value.HasOpaque]
   | externalFn _ => simp [toFfi, Value.HasOpaque]
   | store _ => simp [toFfi, Value.HasOpaque]
   | constructorFn _ _ _ => simp [toFfi, Value.HasOpaque]
-theorem toFfiList_error_iff (vs : List (Value σ)) : (∃ e, toFfiList resolve vs = .error e) ↔ HasOpaqueList vs := by
+theorem toFfiList_error_iff (vs : List (Value σ)) :
+    (∃ e, toFfiList resolve vs = .error e) ↔ (HasOpaqueList vs ∨ HasErrorVList vs) := by
   cases vs with
-  | nil => simp [toFfiList, HasOpaqueList]
+  | nil => simp [toFfiList, HasOpaqueList, HasErrorVList]
   | cons v vs =>
     have h1 := toFfi_error_iff v
     have h2 := toFfiList_error_iff vs
-    simp only [toFfiList, HasOpaqueList, ← h1, ← h2]
+    have h3 : (HasOpaqueList (v :: vs) ∨ HasErrorVList (v :: vs)) ↔
+        ((v.HasOpaque ∨ v.HasErrorV) ∨ (HasOpaqueList vs ∨ HasErrorVList vs)) := by
+      simp only [HasOpaqueList, HasErrorVList]
+      constructor
+      · rintro ((h | h) | (h | h))
+        · exact .inl (.inl h)
+        · exact .inr (.inl h)
+        · exact .inl (.inr h)
+        · exact .inr (.inr h)
+      · rintro ((h | h) | (h | h))
+        · exact .inl (.inl h)
+        · exact .inr (.inl h)
+        · exact .inl (.inr h)
+        · exact .inr (.inr h)
+    rw [h3, ← h1, ← h2]
+    simp only [toFfiList]
     cases toFfi resolve v <;> cases toFfiList resolve vs <;> simp
 theorem toFfiFields_error_iff (fs : List (σ × Value σ)) :
-    (∃ e, toFfiFields resolve fs = .error e) ↔ HasOpaqueFields fs := by
+    (∃ e, toFfiFields resolve fs = .error e) ↔ (HasOpaqueFields fs ∨ HasErrorVFields fs) := by
   cases fs with
-  | nil => simp [toFfiFields, HasOpaqueFields]
+  | nil => simp [toFfiFields, HasOpaqueFields, HasErrorVFields]
   | cons kv fs =>
     obtain ⟨k, v⟩ := kv
     have h1 := toFfi_error_iff v
     have h2 := toFfiFields_error_iff fs
-    simp only [toFfiFields, HasOpaqueFields, ← h1, ← h2]
+    have h3 : (HasOpaqueFields ((k, v) :: fs) ∨ HasErrorVFields ((k, v) :: fs)) ↔
+        ((v.HasOpaque ∨ v.HasErrorV) ∨ (HasOpaqueFields fs ∨ HasErrorVFields fs)) := by
+      simp only [HasOpaqueFields, HasErrorVFields]
+      constructor
+      · rintro ((h | h) | (h | h))
+        · exact .inl (.inl h)
+        · exact .inr (.inl h)
+        · exact .inl (.inr h)
+        · exact .inr (.inr h)
+      · rintro ((h | h) | (h | h))
+        · exact .inl (.inl h)
+        · exact .inr (.inl h)
+        · exact .inl (.inr h)
+        · exact .inr (.inr h)
+    rw [h3, ← h1, ← h2]
+    simp only [toFfiFields]
     cases toFfi resolve v <;> cases toFfiFields resolve fs <;> simp
 end
 
 mutual
+/-- whatever `to_ffi_value` lets through comes back from `to_value` as the value that went in -/
 theorem toValue_toFfi (hi : ∀ s, intern (resolve s) = s) (v : Value σ) (x : FfiValue)
-    (h : toFfi resolve v = .ok x) : toValue intern x = v.eraseErrors := by
+    (h : toFfi resolve v = .ok x) : toValue intern x = v := by
   cases v with
   | array vs =>
     simp only [toFfi] at h
@@ -190,42 +223,42 @@ theorem toValue_toFfi (hi : ∀ s, intern (resolve s) = s) (v : Value σ) (x : F
     · simp at h
     · rename_i xs hxs
       cases h
-      simp [toValue, Value.eraseErrors, toValueList_toFfiList hi vs xs hxs]
+      simp [toValue, toValueList_toFfiList hi vs xs hxs]
   | tuple vs =>
     simp only [toFfi] at h
     split at h
     · simp at h
     · rename_i xs hxs
       cases h
-      simp [toValue, Value.eraseErrors, toValueList_toFfiList hi vs xs hxs]
+      simp [toValue, toValueList_toFfiList hi vs xs hxs]
   | record fs =>
     simp only [toFfi] at h
     split at h
     · simp at h
     · rename_i xs hxs
       cases h
-      simp [toValue, Value.eraseErrors, toValueFields_toFfiFields hi fs xs hxs]
+      simp [toValue, toValueFields_toFfiFields hi fs xs hxs]
   | taggedUnion t v =>
     simp only [toFfi] at h
     split at h
     · simp at h
     · rename_i y hy
       cases h
-      simp [toValue, Value.eraseErrors, toValue_toFfi hi v y hy]
-  | errorV _ => simp only [toFfi] at h; cases h; simp [toValue, Value.eraseErrors]
-  | unit => simp only [toFfi] at h; cases h; simp [toValue, Value.eraseErrors]
-  | number _ => simp only [toFfi] at h; cases h; simp [toValue, Value.eraseErrors]
-  | string _ => simp only [toFfi] at h; cases h; simp [toValue, Value.eraseErrors, hi]
-  | code _ => simp only [toFfi] at h; cases h; simp [toValue, Value.eraseErrors]
+      simp [toValue, toValue_toFfi hi v y hy]
+  | errorV _ => simp [toFfi] at h
+  | unit => simp only [toFfi] at h; cases h; simp [toValue]
+  | number _ => simp only [toFfi] at h; cases h; simp [toValue]
+  | string _ => simp only [toFfi] at h; cases h; simp [toValue, hi]
+  | code _ => simp only [toFfi] at h; cases h; simp [toValue]
   | closure _ _ => simp [toFfi] at h
   | fixpoint _ _ => simp [toFfi] at h
   | externalFn _ => simp [toFfi] at h
   | store _ => simp [toFfi] at h
   | constructorFn _ _ _ => simp [toFfi] at h
 theorem toValueList_toFfiList (hi : ∀ s, intern (resolve s) = s) (vs : List (Value σ)) (xs : List FfiValue)
-    (h : toFfiList resolve vs = .ok xs) : toValueList intern xs = eraseErrorsList vs := by
+    (h : toFfiList resolve vs = .ok xs) : toValueList intern xs = vs := by
   cases vs with
-  | nil => simp only [toFfiList] at h; cases h; simp [toValueList, eraseErrorsList]
+  | nil => simp only [toFfiList] at h; cases h; simp [toValueList]
   | cons v vs =>
     simp only [toFfiList] at h
     split at h
@@ -235,12 +268,12 @@ theorem toValueList_toFfiList (hi : ∀ s, intern (resolve s) = s) (vs : List (V
       · simp at h
       · rename_i ys hys
         cases h
-        simp [toValueList, eraseErrorsList, toValue_toFfi hi v y hy, toValueList_toFfiList hi vs ys hys]
+        simp [toValueList, toValue_toFfi hi v y hy, toValueList_toFfiList hi vs ys hys]
 theorem toValueFields_toFfiFields (hi : ∀ s, intern (resolve s) = s) (fs : List (σ × Value σ))
     (xs : List (String × FfiValue)) (h : toFfiFields resolve fs = .ok xs) :
-    toValueFields intern xs = eraseErrorsFields fs := by
+    toValueFields intern xs = fs := by
   cases fs with
-  | nil => simp only [toFfiFields] at h; cases h; simp [toValueFields, eraseErrorsFields]
+  | nil => simp only [toFfiFields] at h; cases h; simp [toValueFields]
   | cons kv fs =>
     obtain ⟨k, v⟩ := kv
     simp only [toFfiFields] at h
@@ -251,8 +284,43 @@ theorem toValueFields_toFfiFields (hi : ∀ s, intern (resolve s) = s) (fs : Lis
       · simp at h
       · rename_i ys hys
         cases h
-        simp [toValueFields, eraseErrorsFields, hi, toValue_toFfi hi v y hy, toValueFields_toFfiFields hi fs ys hys]
+        simp [toValueFields, hi, toValue_toFfi hi v y hy, toValueFields_toFfiFields hi fs ys hys]
 end
+
+/-! ### macro-argument lists `Vec<(Value, TypeNodeId)>` -/
+
+/-- some argument contains a variant that cannot cross -/
+def ArgsUncrossable : List (Value σ × Key) → Prop
+  | [] => False
+  | (v, _) :: as => (v.HasOpaque ∨ v.HasErrorV) ∨ ArgsUncrossable as
+
+theorem toFfiArgs_error_iff (as : List (Value σ × Key)) :
+    (∃ e, toFfiArgs resolve as = .error e) ↔ ArgsUncrossable as := by
+  induction as with
+  | nil => simp [toFfiArgs, ArgsUncrossable]
+  | cons a as ih =>
+    obtain ⟨v, t⟩ := a
+    have h1 := toFfi_error_iff resolve v
+    simp only [ArgsUncrossable, ← h1, ← ih, toFfiArgs]
+    cases toFfi resolve v <;> cases toFfiArgs resolve as <;> simp
+
+theorem toValueArgs_toFfiArgs (hi : ∀ s, intern (resolve s) = s) (as : List (Value σ × Key))
+    (xs : List (FfiValue × Key)) (h : toFfiArgs resolve as = .ok xs) : toValueArgs intern xs = as := by
+  induction as generalizing xs with
+  | nil => simp only [toFfiArgs] at h; cases h; simp [toValueArgs]
+  | cons a as ih =>
+    obtain ⟨v, t⟩ := a
+    simp only [toFfiArgs] at h
+    split at h
+    · simp at h
+    · rename_i y hy
+      split at h
+      · simp at h
+      · rename_i ys hys
+        cases h
+        simp [toValueArgs, toValue_toFfi resolve intern hi v y hy, ih ys hys]
+
+/-! ### `eraseErrors` (the pre-repair behaviour, used by the judge to name a regression) fixes error-free values -/
 
 mutual
 theorem eraseErrors_eq (v : Value σ) (h : ¬ v.HasErrorV) : v.eraseErrors = v := by
